@@ -64,6 +64,7 @@ def interpret(effs, env, handler, limit=200000, on_segment=None):
     every iteration and after the loop (terms in between are expressed over the values at that point; derived induction variables
     of that loop are the exception, see PolyState.segment)."""
     count = [0]
+    depth = [0]
 
     def cmp_(op, a, b):
         return {"<": a < b, "<=": a <= b, ">": a > b, ">=": a >= b, "!=": a != b}[op]
@@ -141,14 +142,17 @@ def interpret(effs, env, handler, limit=200000, on_segment=None):
                         raise NotEvaluable("condition %s at line %s" % (sym.show(x["cond"])[:100], x.get("l")))
                 go(x["then"] if c else x["else"], env)
             elif e == "inlined":
+                depth[0] += 1
                 try:
                     go(x["body"], env)
                 except _Jump as j:
                     if j.kind != "return":
                         raise
+                finally:
+                    depth[0] -= 1
             elif e in ("break", "continue", "return"):
-                if e == "return":
-                    handler("return", x, env)
+                if e == "return" and not depth[0]:
+                    handler("return", x, env)      # (the return of an inlined callee is a value flow the executor has already substituted)
                 raise _Jump(e)
             elif e == "exit":
                 raise _Jump("exit")
